@@ -20,8 +20,8 @@ pub fn run(e: &Engine) {
     let rule = "histories of commit/sync actions over 2..=4 replicas (thorough: ..=6), 3 task uuids x 3 properties x 5 timestamps; \
 non-trivial = at some point two replicas held unsynced operations on the same task AND some sync both pulled and pushed; \
 distinct = distinct generated history";
-    let small = e.tier.pick(4000, 400_000);
-    let big = e.tier.pick(80, 5000);
+    let small = e.tier.pick(60_000, 2_000_000);
+    let big = e.tier.pick(400, 8000);
     let (maxr, maxa) = e.tier.pick((4, 40), (6, 120));
     e.campaign(
         "histories",
